@@ -219,6 +219,18 @@ def gen(rng, tier, mult=1):
             rq["body"] = None
             yield H.exchange_case([{"accept": "yes", "result": dict(H.SMALL_RESULT)}], [[rq], [H.liveness_request()]],
                                   meta={"kind": f"gate/{method}"})
+    # 2b. a handler that answers a request with a body WITHOUT reading that body, the response carrying a Content-Length:
+    #     the unread bytes (request lines, blank lines, binary) must not be taken for a further request
+    for method in ("POST", "PUT"):
+        for version in ("HTTP/1.1", "HTTP/1.0"):
+            for body in (b"GET /x HTTP/1.1\r\nHost: y\r\n\r\n", b"a\r\nb\r\n", b"\r\n\r\n", b"x" * 70000, b"\n"):
+                for keep in (None, "keep-alive", "close"):
+                    i += 1
+                    hdrs = ([["Host", "localhost"]] if version == "HTTP/1.1" else []) + ([["Connection", keep]] if keep else [])
+                    rq = {"method": method, "target": H.hx("/a"), "version": version, "headers": hdrs, "body": body.hex()}
+                    res = {"kind": "ret", "status": 200, "headers": [[H.hx("Content-Length"), H.hx("2")]], "body": "6f6b"}
+                    yield H.exchange_case([{"accept": "yes", "result": res, "read_body": False}],
+                                          [[rq], [H.liveness_request(i)]], meta={"kind": "unread-request-body"})
     # 3. random combinations
     n = (350 if tier == "quick" else 9000) * mult
     for _ in range(n):
